@@ -41,6 +41,71 @@ def build_world(modules):
     return w
 
 
+TASK_DEADLINE_S = int(os.environ.get("PYVC_TASK_DEADLINE_S", "420"))
+
+
+def _child(fid, conn):
+    try:
+        conn.send(_worker(fid))
+    except Exception:
+        conn.send({"fid": fid, "obls": [], "error": None, "crash": traceback.format_exc()[-3000:], "paths": 0, "time": 0.0, "assumptions": [], "sha": "", "kind": "?"})
+    finally:
+        conn.close()
+
+
+def run_pool(fids, nproc):
+    """One forked process per contract, at most nproc at a time, each under a hard
+    wall-clock deadline.  z3's sequence solver occasionally ignores its own timeout
+    (observed: one worker spinning for 30 min on a query that normally takes 10 s);
+    a task that overruns is killed and started again (twice), and only then reported
+    as undecided - never as a violation."""
+    ctx = mp.get_context("fork")
+    pending = [(fid, 0) for fid in fids]
+    running = {}
+    results = {}
+    while pending or running:
+        while pending and len(running) < nproc:
+            fid, attempt = pending.pop(0)
+            rd, wr = ctx.Pipe(duplex=False)
+            p = ctx.Process(target=_child, args=(fid, wr), daemon=True)
+            p.start()
+            wr.close()
+            running[fid] = (p, rd, time.time(), attempt)
+        done = []
+        for fid, (p, rd, t0, attempt) in running.items():
+            if rd.poll(0):
+                try:
+                    results[fid] = rd.recv()
+                except EOFError:
+                    results[fid] = {"fid": fid, "obls": [], "error": None, "crash": f"worker died (exit code {p.exitcode})", "paths": 0, "time": 0.0, "assumptions": [], "sha": "", "kind": "?"}
+                p.join(5)
+                done.append(fid)
+            elif not p.is_alive():
+                p.join()
+                if rd.poll(0.2):
+                    try:
+                        results[fid] = rd.recv()
+                        done.append(fid)
+                        continue
+                    except EOFError:
+                        pass
+                results[fid] = {"fid": fid, "obls": [], "error": None, "crash": f"worker died (exit code {p.exitcode})", "paths": 0, "time": 0.0, "assumptions": [], "sha": "", "kind": "?"}
+                done.append(fid)
+            elif time.time() - t0 > TASK_DEADLINE_S:
+                p.kill()
+                p.join()
+                done.append(fid)
+                if attempt < 2:
+                    pending.append((fid, attempt + 1))
+                else:
+                    results[fid] = {"fid": fid, "obls": [], "error": f"no verdict within {TASK_DEADLINE_S} s in three attempts (solver did not honour its timeout)", "crash": None, "paths": 0, "time": float(TASK_DEADLINE_S), "assumptions": [], "sha": "", "kind": "?"}
+        for fid in done:
+            running.pop(fid)[1].close()
+        if not done:
+            time.sleep(0.05)
+    return [results[f] for f in fids]
+
+
 def _worker(fid):
     import z3
     from pyvc import verify
@@ -185,9 +250,7 @@ def check_property(pid: str, spec: dict, tier: str, seed: int) -> int:
         print(f"TOOL-ERROR property={pid}: no contracts registered")
         return 3
     nproc = min(int(os.environ.get("PYVC_PROCS", "12")), len(fids))
-    ctx = mp.get_context("fork")
-    with ctx.Pool(nproc) as pool:
-        results = pool.map(_worker, fids, chunksize=1)
+    results = run_pool(fids, nproc)
 
     ledger = load_json(os.path.join(VERIF, "contracts", "LEDGER.json"), {}).get(pid, {})
     known = [k for k in load_json(os.path.join(VERIF, "known_findings.json"), {"findings": []})["findings"] if k.get("property") == pid and k.get("status", "open") == "open"]
@@ -353,8 +416,7 @@ def write_ledger(pids, specs):
     for pid in pids:
         w = build_world(specs[pid]["modules"])
         fids = [fid for fid, c in w.contracts.items() if pid in c.props and (c.verify or c.kind in ("lemma", "custom"))]
-        with mp.get_context("fork").Pool(min(12, len(fids))) as pool:
-            results = pool.map(_worker, fids, chunksize=1)
+        results = run_pool(fids, min(12, len(fids)))
         led[pid] = {o["oid"]: o["status"] for r in results for o in r["obls"] if not o.get("bounded")}
     with open(path, "w") as f:
         json.dump(led, f, indent=1, sort_keys=True)
